@@ -11,6 +11,7 @@
      C15.lookup     a lookup by frequency(+DR) returns an index whose channel matches
      C15.cflist     CFList = first five eligible custom channels in order / exact enabled masks
      C15.encodable  what the band hands out encodes in the MAC layer and decodes back
+     C12.channel    RX1 channel index and RX1 frequency of every uplink channel denote the same existing downlink channel
      C13.closed     enabled uplink data-rates stay inside the defined data-rates after channel changes
    Independent part (C14): `plan` events carry the network plan, the device set and the payloads.
      C14.reach / C14.encodable / C14.count / C14.minimal / C14.apply *)
@@ -53,6 +54,13 @@ LookupOK(p, lk) == \A k \in 1..Len(lk) :
 ClosedOK(p) == LET def == SetOf(p.defdrs) IN
   (\A k \in 1..Len(p.ul) : p.ul[k].min..p.ul[k].max \subseteq def) => SetOf(p.endrs) \subseteq def
 
+\* C12 along channel-plan histories: for every uplink channel (zero-frequency placeholders aside) the RX1 channel obtained
+\* from its index and the RX1 frequency obtained from its frequency denote the same EXISTING downlink channel
+Rx1OK(p) == \A k \in 1..Len(p.rx1) :
+  LET r == p.rx1[k] IN
+  (p.ul[r.i + 1].f = ZeroF) \/
+  (/\ r.idx >= 0 /\ r.idx < Len(p.dl) /\ r.fcode = 0 /\ p.dl[r.idx + 1].f = r.f)
+
 OpFails(e) ==
   LET cs == OpChans(e) IN
   Tag(e.code = OpCode(e), "C15.index")
@@ -61,6 +69,7 @@ OpFails(e) ==
   \o Tag(StandardOK(e.proj), "C15.standard")
   \o Tag(LookupOK(e.proj, e.lookups), "C15.lookup")
   \o Tag(ClosedOK(e.proj), "C13.closed")
+  \o Tag(Rx1OK(e.proj), "C12.channel")
 
 OldVersions == {"1.0.0", "1.0.1", "1.0.2"}
 FreqEncodable(f) == f.r = 0 /\ f.q < 16777216
